@@ -126,6 +126,11 @@ func evalExecBlock(vm *r.VM, execBlock *syntax.ExecBlock, params []r.Element) (r
 	rtnValue, stmtBlockErr := evalStmtBlock(vm, execBlock.StmtBlock)
 
 	if stmtBlockErr != nil {
+		// 结束循环 / 继续循环 that no loop of THIS body has consumed must not reach a loop of the
+		// caller (leaving the callee's frame behind): it is an exception of this body instead
+		if sig, ok := stmtBlockErr.(*zerr.Signal); ok && (sig.SigType == zerr.SigTypeBreak || sig.SigType == zerr.SigTypeContinue) {
+			stmtBlockErr = value.NewException(sig.Error())
+		}
 		return handleExceptionSignal(vm, blockModule, blockDepth, execBlock.CatchBlock, stmtBlockErr)
 	}
 
